@@ -1,7 +1,7 @@
 (* C16 — live updates keep segment identity: append and truncation are stable. *)
 From hls Require Import Base Float Lex Kinds Types Tags Line Keys Media Master.
 From hls.Generated Require Import Tables.
-From hls.Proofs Require Import Build Parse MediaProps C16.
+From hls.Proofs Require Import Build Parse MediaProps C16 MediaText C03Items ParsedBuilt Slide.
 Open Scope N_scope.
 
 (* if an item list and an extension of it are both accepted (same media sequence value), the
@@ -38,6 +38,23 @@ Proof. exact open_streaminf_rejected. Qed.
 Check C16_cut_master : forall ls, open_streaminf ls ->
   forall s s', mrun_lines s (items ls) = Ok s' -> False.
 Print Assumptions C16_cut_master.
+
+(* sliding the window: the playlist value with its first k segments dropped and EXT-X-MEDIA-SEQUENCE
+   raised by k, written by the writer (which restates the keys and maps still in effect) and read
+   again: every remaining segment keeps its number, URI, duration, byte range, date range, flags,
+   map, and its keys as a set — effective IVs included, since a derived IV is part of the key *)
+Theorem C16_slide : forall s p k, parse_media s = Ok p -> wf_media p = true -> (k < List.length (mp_segs p))%nat ->
+  parse_media (print_media (slide k p)) = Ok (reread (slide k p))
+  /\ mp_mseq (reread (slide k p)) = mp_mseq p + N.of_nat k
+  /\ Forall2 seg_same (mp_segs (reread (slide k p))) (skipn k (mp_segs p)).
+Proof.
+  intros s p k H Hwf Hk. destruct (parsed_media_built s p H) as [raws Hb]. exact (slide_roundtrip p raws k Hwf Hb Hk).
+Qed.
+Check C16_slide : forall s p k, parse_media s = Ok p -> wf_media p = true -> (k < List.length (mp_segs p))%nat ->
+  parse_media (print_media (slide k p)) = Ok (reread (slide k p))
+  /\ mp_mseq (reread (slide k p)) = mp_mseq p + N.of_nat k
+  /\ Forall2 seg_same (mp_segs (reread (slide k p))) (skipn k (mp_segs p)).
+Print Assumptions C16_slide.
 
 Example C16_example :
   is_err (parse_master (lit "#EXTM3U
